@@ -120,6 +120,16 @@ CLAIMED = {
             "trusted: TLC, the transcription of the documented definitions; hashlib for md5/sha1/sha256/sha512/sha3; lossy UTF-8 "
             "decoding, Latin-1 vs UTF-8 in base64Decode, non-canonical base64 and integers beyond 1e8 are undecided",
             "DESIGN.md §4 C11"),
+    "C13": ("TLA+ specs StdObjects (type/length/equality/xor/mergePatch/prune with RFC 7396 and prune laws) and "
+            "MC_StdObjectsChain (object-inspection functions on the chains of Objects.tla) evaluated by TLC; every call / chain "
+            "replayed through Jsonnet, including a failing-fields rendering for laziness",
+            "TLC computes the documented result of each function on a pool of JSON-like values (hidden fields, nulls, nested empty "
+            "containers, functions) and on inheritance chains with hidden/unhidden/+:/removed-key members; the implementation "
+            "must agree, list names in ascending order, honour inc_hidden/default arguments, and the functions whose definitions "
+            "do not need field values must work on objects whose fields all fail",
+            "trusted: TLC, the transcription of the documented definitions; values containing functions and patches with hidden "
+            "fields are undecided; quick tier replays a seeded sample of the chains",
+            "DESIGN.md §4 C13"),
 }
 
 NOT_YET = "specification module and binding not built yet in this round; see DESIGN.md §4 for the planned model"
